@@ -166,6 +166,15 @@ pub fn case(x: &Xfer) -> CaseOut {
         }
         let until = w.now + 30_000_000;
         w.run(until, |_| false);
+        // an ACK lost just before may leave a sender waiting for a probe timeout that carries the backoff
+        // of an earlier loss episode (quinn keeps the PTO backoff when it discards the Handshake space):
+        // let every armed loss-detection timer fire and its probe be answered (virtual time is free)
+        for _ in 0..6 {
+            let next = w.conns.iter().filter(|c| !c.gone && c.c.verif_probe().timers_armed.contains(&"LossDetection")).filter_map(|c| c.deadline.map(|d| d.0)).max();
+            let Some(d) = next else { break };
+            let until = d.max(w.now) + 2_000_000;
+            w.run(until, |_| false);
+        }
         let kf1_after = w.conns.iter().any(|c| padded_acks_block_cwnd(x, c));
         let desync = w.conns.iter().any(|c| c.c.verif_probe().authentication_failures >= 3);
         for c in &w.conns {
@@ -197,7 +206,7 @@ pub fn case(x: &Xfer) -> CaseOut {
             if p.ack_eliciting_in_flight != 0 {
                 return CaseOut::fail(
                     "c12/balance-ack-eliciting",
-                    format!("{:?}: everything was acknowledged over a clean link but ack_eliciting_in_flight = {} (bytes {})", c.side, p.ack_eliciting_in_flight, p.bytes_in_flight),
+                    format!("{:?}: everything was acknowledged over a clean link but ack_eliciting_in_flight = {} (bytes {}); packets tracked {:?}, lost_packets {:?}, timers {:?}, pto_count {}, window {}, now {}\n{}", c.side, p.ack_eliciting_in_flight, p.bytes_in_flight, p.sent_packets, p.lost_packets, p.timers_armed, p.pto_count, p.congestion_window, w.now, w.dump_trace(w.trace.len().saturating_sub(60), 60)),
                 );
             }
             let pad = if c.side.is_client() { x.net.client_tc.pad_to_mtu } else { x.net.server_tc.pad_to_mtu };
